@@ -20,11 +20,25 @@ use ttl_cache::TtlCache;
 fn show(r: Result<Option<huginn_net_tls::tls::Signature>, HuginnNetTlsError>) -> String {
     match r {
         Ok(None) => "-".into(),
-        Ok(Some(s)) => format!("sig:{}", esc(s.generate_ja4().full.value())),
+        Ok(Some(s)) => format!("sig:{}", esc8(s.generate_ja4().full.value())),
         Err(HuginnNetTlsError::Parse(m)) if m == "TLS record too large" => "err:too-large".into(),
         Err(HuginnNetTlsError::Parse(_)) => "err:parse".into(),
         Err(_) => "err:other".into(),
     }
+}
+
+/// Only letters, digits and `_` go through unescaped: a JA4 string carries the first and last character of the
+/// first ALPN value verbatim, and `;`, `,`, `/` and the space are separators of this line protocol.
+fn esc8(s: &str) -> String {
+    let mut o = String::with_capacity(s.len());
+    for c in s.chars() {
+        if c.is_ascii_alphanumeric() || c == '_' {
+            o.push(c);
+        } else {
+            o.push_str(&format!("\\u{{{:x}}}", c as u32));
+        }
+    }
+    o
 }
 
 fn single_of(whole: &[u8]) -> String {
@@ -111,7 +125,7 @@ fn show_pk(r: Result<Option<huginn_net_tls::TlsClientOutput>, HuginnNetTlsError>
                 return format!("sig-wrong-endpoints:{}:{}", o.source.port, o.destination.port);
             }
             // the output carries the fingerprint computed by the processor
-            format!("sig:{}", esc(o.sig.ja4.full.value()))
+            format!("sig:{}", esc8(o.sig.ja4.full.value()))
         }
         Err(HuginnNetTlsError::Parse(m)) if m.starts_with("Failed to retrieve flow") => "err:insert".into(),
         Err(HuginnNetTlsError::Parse(_)) => "err:parse".into(),
